@@ -761,19 +761,45 @@ class Caller(object):
         prgen.seeded(t).shuffle(keys)
         routes = [{rt.Routes(t.draw(6))}, {rt.Routes(6 + t.draw(4))},
                   {rt.Routes(t.draw(6)), rt.Routes(8)}]
+        kept = getattr(self, "kept_table", None)
+        # (a few common sizes, so that successive tables are often as long as
+        # each other; what is drawn never depends on earlier calls)
+        n = min([n, n, 6, 8][t.draw(4)], (1 << bits) - 1)
         table = []
-        for k in keys[:n]:
+        mixed = t.draw(3) == 0
+        if mixed:
+            # orthogonal entries of mixed generality: the regions of a
+            # prefix-free split of the key space
+            regions = [(0, 0)]
+            while len(regions) < n:
+                cands = [r for r in regions if r[1] < bits]
+                if not cands:
+                    break
+                pre, plen = cands[t.draw(len(cands))]
+                regions.remove((pre, plen))
+                regions += [(pre << 1, plen + 1), ((pre << 1) | 1, plen + 1)]
+            prgen.seeded(t).shuffle(regions)
+            kms = [(pre << (bits - plen),
+                    ((((1 << plen) - 1) << (bits - plen)) | 0xffffff00))
+                   for pre, plen in regions[:n]]
+        else:
+            kms = [(k, (1 << bits) - 1 | 0xffffff00) for k in keys[:n]]
+        for k, mk in kms:
             src = [{None}, {rt.Routes(t.draw(6))}, set(),
                    {rt.Routes(t.draw(6)), None}][t.draw_small(4, 0.6)]
-            table.append(rt.RoutingTableEntry(routes[t.draw(3)], k,
-                                              (1 << bits) - 1 | 0xffffff00,
-                                              src))
+            table.append(rt.RoutingTableEntry(routes[t.draw(3)], k, mk, src))
         if table and t.draw(4) == 0:
             # a repeated entry (same key, mask and route) reached by another
             # link, somewhere in the table
             e = table[t.draw(len(table))]
             table.insert(t.draw(len(table) + 1), rt.RoutingTableEntry(
                 set(e.route), e.key, e.mask, {rt.Routes(t.draw(6))}))
+        if t.draw(2) and kept is not None:
+            # the caller keeps one list object for its tables and refills it
+            kept[:] = table
+            table = kept
+            self.w.probe("table_list_reused")
+        self.kept_table = table
         target = [None, 1, n - 1, n][t.draw(4)]
         which = t.draw(4)
         if which == 0:
